@@ -68,8 +68,10 @@ func genC17(seed uint64, r *rng.Rand) *Plan {
 	p.Scenario = scen
 	switch scen {
 	case "retry-later":
+		// the requests of the workload, every request, or only the establishment
+		// probes are answered "try again later"
 		p.Faults = append(p.Faults, &Fault{On: "exec", N: at, Act: "rule", Rule: &hb.Rule{Class: hb.RetryableClasses[g.R.Intn(len(hb.RetryableClasses))], Count: -1, Server: -1,
-			Level: []string{"action", "region", "call"}[g.R.Intn(3)]}})
+			Level: []string{"action", "region", "call"}[g.R.Intn(3)], Kind: []string{"", "", "Any", "Probe"}[g.R.Intn(4)], Table: ts.Name}})
 	case "flaky-server":
 		p.Faults = append(p.Faults, &Fault{On: "exec", N: at, Act: "flaky", Server: g.R.Intn(p.Layout.Servers)})
 	case "fatal-forever":
